@@ -1,19 +1,70 @@
 #include "slu_mt_@p@defs.h"
 #include "defs.h"
-/* Harness of unit myblas_lsolve: the REAL ?lsolve of SRC/?myblas2.c on a symbolic block.  inputs in_*, ghosts g_*. */
-int_t in_ldm, in_ncol; @T@ in_M[MCAP];
-#if !ALIAS
-@T@ in_rhs[VCAP];
+/* Harness of unit myblas_lsolve -- BOUNDED (label B(n), ncol <= NMAX): the REAL ?lsolve of SRC/?myblas2.c is executed symbolically with all
+ * loops unwound (--unwinding-assertions), once per ncol.  No loop contract: a loop contract havocs the cursor pointers M0, Mki0..Mki7, after
+ * which symex splits every *Mki++ over all assignable objects with a byte-level read (legacy: 8.3 M variables / 42 M clauses and 4.5 min PER
+ * obligation for ncol <= 9, ldm <= 10; dfcc: out of memory) -- the same wall as units bmod1D/bmod2D.  The clauses are the ones a contract
+ * would carry: REQ = requires (assumed), ENS = ensures (asserted), frame = exact-size objects + a ghost index into M.  inputs in_*, ghosts g_*. */
+int_t in_ldm, in_ncol;
+@T@ *g_Mobj, *g_robj; int_t g_k, g_m; @T@ g_b[NMAX + 1], g_ref[NMAX + 1], g_m0;
+void *malloc(__CPROVER_size_t);
+int_t nondet_int_t(void);
+#define REQ(label, c) __CPROVER_assume(c)
+#define ENS(label, c) __CPROVER_assert(c, "ensures " #label)
+static void one_case(void) {
+  int_t i, j;
+  g_k = nondet_int_t(); g_m = nondet_int_t();
+  /* ---------- requires ---------- */
+#if ALIAS
+  /* ONE object: the block (ncol full columns) and behind it rhs, exactly ncol entries: &lusup[luptr], &lusup[ufirst] */
+  g_Mobj = malloc((__CPROVER_size_t)(MSIZE + N) * sizeof(@T@));       /* contents arbitrary */
+  REQ(allocated, g_Mobj != 0);
+  g_robj = g_Mobj + MSIZE;
+#else
+  /* M has exactly REND entries, rhs exactly ncol: an access outside leaves the object */
+  g_Mobj = malloc((__CPROVER_size_t)MSIZE * sizeof(@T@));
+  g_robj = malloc((__CPROVER_size_t)N * sizeof(@T@));
+  REQ(allocated, g_Mobj != 0 && g_robj != 0);
 #endif
-int_t g_moff, g_roff, g_T[CAP+1], g_p; @T@ g_v0, g_r0;
+  if (MSIZE > 0) { REQ(ghosts, 0 <= g_m && g_m < MSIZE); g_m0 = g_Mobj[g_m]; }
+  for (i = 0; i < N; i++) {
+#if VALS
+    /* exact domain: rhs and the strictly lower triangle hold small integers; every other entry of the block stays arbitrary (NaN included) */
+    REQ(small_rhs, SMALL(g_robj[i]));
+    for (j = 0; j < i; j++) REQ(small_triangle, SMALL(g_Mobj[i + j * LD]));
+#endif
+    g_b[i] = g_robj[i];
+  }
+#if VALS
+  /* textbook forward substitution with a unit diagonal: x_i = b_i - sum_{j<i} M(i,j) x_j */
+  for (i = 0; i < N; i++) {
+    @T@ s = g_b[i];
+    for (j = 0; j < i; j++) s = s - g_Mobj[i + j * LD] * g_ref[j];
+    g_ref[i] = s;
+  }
+#endif
+
+  @p@lsolve(in_ldm, in_ncol, g_Mobj, g_robj);
+
+  /* ---------- ensures ---------- */
+  /* C05: M is not written (same-object variant: nothing in front of rhs is); writes outside rhs[0..ncol) leave the object */
+  if (MSIZE > 0) ENS(M_kept, SAME(g_Mobj[g_m], g_m0));
+  /* unit diagonal: x[0] = rhs[0] */
+  if (N >= 1) ENS(first_entry_kept, SAME(g_robj[0], g_b[0]));
+  /* x_k = rhs_k - sum: an entry that was NaN stays NaN (what the callers' kernel models assume) */
+  if (N >= 1) ENS(nan_stays, !(INSIDE(g_k) && POIS(g_b[KK])) || POIS(g_robj[KK]));
+#if VALS
+  /* C19: rhs := inv(unit-lower(M)) * rhs, read from the strictly lower triangle only (every other entry of the block is arbitrary) */
+  if (N >= 1) ENS(solves_unit_lower, !INSIDE(g_k) || EQ(g_robj[KK], g_ref[KK]));
+  if (in_ncol == NMAX && g_k == NMAX - 1 && g_ref[NMAX - 1] > 100) __CPROVER_assert(0, "canary: last solution entry > 100");
+#else
+  if (INSIDE(g_k) && POIS(g_b[KK]) && g_k >= 2) __CPROVER_assert(0, "canary: a NaN in rhs on entry");
+#endif
+  if (in_ncol == NLO) __CPROVER_assert(0, "canary: smallest ncol");
+  if (in_ncol == NMAX) __CPROVER_assert(0, "canary: largest ncol");
+}
 void h_lsolve(void) {
-  __CPROVER_assume(0 <= g_moff && g_moff <= MCAP && 0 <= g_roff && g_roff <= RCAP);   /* the two pointers can be formed */
-  @p@lsolve(in_ldm, in_ncol, in_M + g_moff, RHSOBJ + g_roff);
-  __CPROVER_assert(0, "canary: lsolve returns");
-  if (in_ncol == 0) __CPROVER_assert(0, "canary: ncol 0");
-  if (in_ncol == 1) __CPROVER_assert(0, "canary: ncol 1");
-  if (in_ncol == 7 && g_moff > 0) __CPROVER_assert(0, "canary: ncol 7 (4+2+1), tail-aligned M");
-  if (in_ncol == 15 && in_ldm == 1000 && g_roff > 0) __CPROVER_assert(0, "canary: ncol 15 (8+4+2+1), ldm 1000, tail-aligned rhs");
-  if (in_ncol == CAP && in_ldm == LDMAX) __CPROVER_assert(0, "canary: largest block");
-  if (in_ncol == 9 && in_ldm == 9 && g_moff == 0 && g_roff == 0) __CPROVER_assert(0, "canary: ncol 9, ldm == ncol, head-aligned");
+  int_t n;
+  for (n = NLO; n <= NMAX; n++) { in_ncol = n; in_ldm = n + LDGAP; one_case(); }
+  __CPROVER_assert(0, "canary: lsolve returns in every case");
 }
